@@ -250,6 +250,23 @@ theorem apply_keeps_waveset (thr : K) (src : Sampled K) (c : Table K) :
   unfold applyCurve extinctionSampleset
   cases src.sampleset <;> rfl
 
+/-- also for a redshifted source: the curve multiplies the *redshifted* source pointwise (it is evaluated
+at the observed wavelength, not at `w / (1+z)`), and the product's sampling set is the source's
+redshifted one, i.e. the rest set times `1 + z` -/
+theorem apply_redshifted (thr : K) (s src : Sampled K) (z : K) (conserve : Bool) (c : Table K)
+    (hz : z ≠ 0) (h : s.redshift z conserve = .ok src) :
+    (∀ w, (applyCurve thr src c).eval w =
+      (if conserve then s.eval (w / (1 + z)) * (1 / (1 + z)) else s.eval (w / (1 + z))) * c.eval w) ∧
+    (applyCurve thr src c).sampleset = s.sampleset.map (fun l => l.map (fun x => (1 + z) * x)) := by
+  unfold Sampled.redshift at h
+  rw [if_neg hz] at h
+  by_cases h1 : 1 + z = 0
+  · rw [if_pos h1] at h; cases h
+  · rw [if_neg h1] at h
+    injection h with h
+    subst h
+    exact ⟨fun w => rfl, apply_keeps_waveset thr _ c⟩
+
 /-- reddening by `E` followed by de-reddening by `−E` returns the source at every sampled wavelength -/
 theorem apply_neg_undoes (hT : T.Lawful) (thr : K) (src : Sampled K)
     {ep en : EbvArg K} {wave : WaveSel K} {cp cn : Table K} {e : K}
